@@ -237,7 +237,17 @@ func (g *gen) loadStep(s *session) {
 	fl := g.rng.Pick([]string{"-", "-", "-", "n", "n", "u", "f", "fn", "w", "w", "fw", "x", "c", "m", "i"})
 	switch {
 	case strings.Contains(fl, "w"):
-		body = bodyOf(g.value(3)) // the adapter wraps it into {"apps":{"c12":…}}
+		v := g.value(3) // the adapter wraps it into {"apps":{"c12":…}}
+		if g.rng.Chance(1, 3) {
+			// a member "warn": adapted with a warning; with "reject" the load then fails
+			m := g.object(2)
+			m["warn"] = g.scalar()
+			if g.rng.Chance(1, 3) {
+				m["reject"] = true
+			}
+			v = m
+		}
+		body = bodyOf(v)
 	default:
 		body = bodyOf(g.doc())
 	}
@@ -451,6 +461,8 @@ func (prop) Generate(rng *core.Rand, tier string, emit func(string)) {
 	g.ggOps(n/10+20, emit)
 	g.cliOps(n/25+20, emit)
 	g.pullOps(n/25+20, emit)
+	g.wireOps(n/5+60, emit)
+	g.ovlOps(n/25+20, emit)
 
 	for i := 0; i < n; i++ {
 		line := g.history(maxSteps)
